@@ -24,6 +24,8 @@ func dispatch(c *hx.Ctx, in Input) {
 		scenIndex(c, in)
 	case "chain":
 		scenChain(c, in)
+	case "concurrent":
+		scenConcurrent(c, in)
 	default:
 		scenHist(c, in)
 	}
@@ -64,4 +66,5 @@ func Run(c *hx.Ctx) {
 	many("hist-mainnet-fork", c.N(1, 3), 0)
 	many("hist-ceil", c.N(1, 3), c.N(1, 2))
 	many("chain", c.N(1, 2), c.N(1, 2))
+	many("concurrent", c.N(1, 3), c.N(5, 8))
 }
